@@ -7,6 +7,8 @@ namespace Dns
 /-- one step of a hand-written RDATA parser (`func (rr *T) parse`) or printer (`func (rr *T) String`) -/
 inductive TStep where
   | uint (bits : Nat)       -- `strconv.ParseUint(l.token, 10, bits)` / `strconv.Itoa(int(rr.F))` with F a uint<bits> field
+  | uintAlg                 -- a DNSSEC algorithm: `ParseUint(l.token, 10, 8)`, else the mnemonic in `StringToAlgorithm`
+  | tok                     -- the token as it is (`rr.F = l.token` behind an `l.err` check)
   | name                    -- `toAbsoluteName(l.token, o)` / `sprintName(rr.F)`
   | endStr (upper : Bool)   -- `endingToString(c, …)` / the field as it is (or through `strings.ToUpper`)
   | txt                     -- `endingToTxtSlice(c, …)` / `sprintTxt(rr.F)`
